@@ -145,13 +145,21 @@ func hRefFirstSegment(id string) (host string, ok bool) {
 	return string(b), true
 }
 
-func hHasRawQueryOrFragmentByte(id string) bool {
-	r := false
+// hInDIDSyntax: the method-specific-id syntax of DID Core as implemented by go-did's parser
+// (idchar = ALPHA / DIGIT / "." / "-" / "_" / pct-encoded, parts separated by ':'). Only such strings can be
+// the ID of a DID that came out of did.ParseDID / JSON unmarshalling.
+func hInDIDSyntax(id string) bool {
+	ok := true
 	for i := 0; i < len(id); i++ {
 		c := id[i]
-		r = r || c == '?' || c == '#'
+		plain := (c >= 'a' && c <= 'z') || (c >= 'A' && c <= 'Z') || (c >= '0' && c <= '9') || c == '.' || c == '-' || c == '_' || c == ':'
+		esc := c == '%' && i+2 < len(id)
+		if esc {
+			esc = hIsHexByte(id[i+1]) && hIsHexByte(id[i+2])
+		}
+		ok = ok && (plain || esc)
 	}
-	return r
+	return ok
 }
 
 func hHasEscapedDot(id string) bool {
@@ -183,12 +191,13 @@ func hCheckURL(hid string, id string, u *url.URL) {
 	}
 	vAssert(ip == nil, hid+".host_not_ip: did:web URL host is an IP address literal")
 
-	if hHasRawQueryOrFragmentByte(id) {
-		// A raw '?' or '#' ends the DID in every DID (URL) parser: such a value cannot be the ID of a parsed
-		// DID. For these hand-made ids only the origin clauses above are claimed.
-		vCover("raw-?#-in-id")
+	if !hInDIDSyntax(id) {
+		// Bytes outside the DID syntax (raw '?', '#', '/', '@', '[', space, non-ASCII, ...) cannot occur in the ID
+		// of a parsed DID. For such hand-made ids only the origin clauses above are claimed.
+		vCover("id-outside-did-syntax")
 		return
 	}
+	vCover("id-in-did-syntax")
 	vAssert(u.RawQuery == "" && !u.ForceQuery, hid+".no_query: did:web URL has a query")
 	vAssert(u.Fragment == "" && u.RawFragment == "", hid+".no_fragment: did:web URL has a fragment")
 
@@ -214,13 +223,13 @@ func hCheckURL(hid string, id string, u *url.URL) {
 			continue
 		}
 		c := ep[i]
-		if c == '%' && i+2 < len(ep) {
-			h, ok1 := hHexVal(ep[i+1])
-			l, ok2 := hHexVal(ep[i+2])
-			if ok1 && ok2 {
-				c = h<<4 | l
-				i += 2
+		if c == '%' {
+			// EscapedPath() only emits well-formed escapes; the only decoded value that matters here is '.'
+			vAssert(i+2 < len(ep), hid+".escaped_path_wellformed: truncated escape in EscapedPath()")
+			if ep[i+1] == '2' && (ep[i+2] == 'E' || ep[i+2] == 'e') {
+				c = '.'
 			}
+			i += 2
 		}
 		n++
 		dots = dots && c == '.'
